@@ -9,7 +9,8 @@ import SlVerif.Model.Matrix
   Scalars are generic over `FieldOps F` (run at `Fq`, reasoned about at a Mathlib field).
   Group elements are generic over `ModuleOps F G`; the Rust writes `point * scalar`, hence `smul : G → F → G`.
   `Vec`s are `List`s; `.iter().enumerate()` is `List.zipIdx`; `.skip(n)` is `List.drop n`; `.sum()` of scalars is the
-  left fold `FieldOps.sum`; `pow_vartime([e])` is `FieldOps.pow`.
+  left fold `FieldOps.sum` (k256 implements `Sum` as `reduce(Add::add).unwrap_or(ZERO)`: the same value, without the
+  leading `ZERO +`); `pow_vartime([e])` is `FieldOps.pow`.
   Imports nothing outside the model directory (driver links).
 -/
 namespace SlVerif
